@@ -242,6 +242,30 @@ def _jobserver_case(args):
         if o.get("hang"):
             out["problems"].append("ninja waits forever although tokens are available")
         out["max_running"] = o.get("max_running", 0)
+        # C05 under a jobserver: with an unlimited failure budget every statement that does not depend on a failed one is
+        # still started (a failed command's slot goes back to the pool like any other)
+        if op.get("faults") and op.get("k") == 0 and sig_at is None and not o.get("hang") and not o.get("timeout"):
+            v0 = sc["variants"][0]
+            failing = set(op["faults"])
+            producer = {}
+            for st in v0["stmts"]:
+                for oo in st["outs"]:
+                    producer[oo] = st
+            def tainted(st, seen=()):
+                if st["outs"][0] in failing:
+                    return True
+                for i in st["ex"] + st["im"] + st["oo"]:
+                    p = producer.get(i)
+                    if p is not None and p["outs"][0] not in seen and tainted(p, seen + (st["outs"][0],)):
+                        return True
+                return False
+            for st in v0["stmts"]:
+                if st.get("phony") or tainted(st):
+                    continue
+                if st["outs"][0] not in o.get("started", []):
+                    out["problems"].append("independent: '%s' does not depend on a failed command and the failure budget is unlimited "
+                                           "(-k0), but under the jobserver (%d tokens) it was never started" % (st["outs"][0], tokens))
+                    break
         if explicit_j:
             if o.get("max_running", 0) > explicit_j:
                 out["problems"].append("%d commands running with an explicit -j%d (jobserver with %d tokens inherited)" % (
@@ -524,8 +548,21 @@ def c05_process_level(c):
                                                         "; ".join(p["problems"])),
                     {"engine": "rb", "kind": "ending", "scenario": p["scenario_json"], "opi": p["opi"], "compound": p["compound"],
                      "problems": p["problems"], "obs": p.get("obs")})
+    # the failure budget under a real FIFO jobserver (the cases of C06, judged by the clause of C05)
+    js = jobserver(c.tier)
+    nj = 0
+    for p in js["problems"]:
+        ind = [x for x in p["problems"] if x.startswith("independent:")]
+        if not ind:
+            continue
+        nj += 1
+        if nj > 3:
+            break
+        c.violation("C05/jobserver %s, %d token(s), '%s' choices=%s: %s" % (p["scenario"], p["tokens"], p["op"], p["choices"], "; ".join(ind)),
+                    {"engine": "rb", "kind": "jobserver", "scenario": p["scenario_json"], "tokens": p["tokens"], "opi": p["opi"],
+                     "choices": p["choices"], "signal_at": p["signal_at"], "explicit_j": p.get("explicit_j"), "problems": ind})
     return {"real_command_ending_cases": r["cases"], "real_exit_statuses_seen": r["exit_statuses_seen"],
-            "real_command_ending_samples": r["sample"]}
+            "real_command_ending_samples": r["sample"], "real_jobserver_cases_with_faults": js["cases"]}
 
 
 def replay(rj):
